@@ -509,6 +509,42 @@ func (x *run) stepDefault() {
 			x.drain(x.aofF)
 			x.wr += n
 			x.op(map[string]interface{}{"op": "append", "n": n})
+		case c < 46 && x.disk && x.wr > x.wl:
+			// a reader that has caught up with the writer, and an append that fills the segment and rotates the log at the
+			// instant the reader stands at the end of the old segment
+			rd, err := x.ch.NewReader(syncer.Offset{RunId: x.label, Offset: x.wr})
+			if err != nil || !rd.IsAof() {
+				if err == nil {
+					rd.Close()
+				}
+				break
+			}
+			x.nextR++
+			p := newPump(rd)
+			p.pos, p.hist = x.wr, x.hist
+			x.readers[x.nextR] = p
+			x.obs(map[string]interface{}{"o": "open", "r": x.nextR, "off": x.wr, "aof": true, "lazy": false})
+			n := x.logSize + 1 + int64(r.Intn(4))
+			data := gen(n, func(i int64) byte { return Byte(x.hist, x.wr+i) })
+			fired := make(chan struct{})
+			f := func() {
+				x.aofF.Feed(data)
+				x.aofF.WaitDrained(nil, 2*time.Second)
+				time.Sleep(200 * time.Microsecond) // the writer stores the bytes and opens the next segment
+				close(fired)
+			}
+			tailHook.Store(&f)
+			select {
+			case <-fired:
+			case <-time.After(500 * time.Millisecond):
+				if g := tailHook.Swap(nil); g != nil {
+					(*g)() // no reader reached the end of its segment: a plain append
+				} else {
+					<-fired
+				}
+			}
+			x.wr += n
+			x.op(map[string]interface{}{"op": "append", "n": n, "at": "readereof"})
 		case c < 55:
 			// open a reader somewhere in (or just outside) what was written
 			o := x.wl + int64(r.Intn(int(x.wr-x.wl)+3)) - 1
@@ -625,11 +661,20 @@ var freezeEvery int
 
 // closeGate: a snapshot writer that is being closed by a closingReader waits at its "rdb.close" point (before it decides
 // whether the snapshot is complete) until the reader has handed the last bytes to the writer's pump
+var tailHook atomic.Pointer[func()]
 var closeGate atomic.Pointer[chan struct{}]
 var closeReached atomic.Pointer[chan struct{}]
 
 func installFreeze() {
 	verifhook.SetPoint(func(name string, args ...interface{}) {
+		if name == "store.reader" {
+			// a tailing reader has just seen the end of its segment and has not yet looked for a successor: the one instant
+			// at which an append that also rotates the log decides whether the reader loses the tail of its segment
+			if f := tailHook.Swap(nil); f != nil {
+				(*f)()
+			}
+			return
+		}
 		if name != "store.fs" {
 			return
 		}
